@@ -89,7 +89,9 @@ def run_c16(tier, seed, replay):
                 else:
                     probe = "EF " + m["vars"][0]
                 jobs.append({"id": "%s-%d" % (m["id"], j), "kinds": ["c16"], "model": fm[fmt], "format": fmt, "k": k,
-                             "sets": sets, "formulae": formulae, "probe": probe})
+                             "sets": sets, "formulae": formulae, "probe": probe,
+                             # history: every third archive is written over an older, larger one at the same path
+                             "overwrite": j % 3 == 1})
     if not replay:
         # large sets (tens of thousands of BDD nodes, entries of hundreds of kilobytes) on a 24-variable ring
         for j in range(3 if tier == "thorough" else 1):
